@@ -2,6 +2,7 @@
 Proof: Props/C20.v.  Correspondence: the panic-aware models (Model/Calendar.v, Dates.v, Dual.v, FX.v, Named.v,
 Json.v, Entry.v) against the real code through `rlharness cal` and `rlharness json` (feature verif_hooks, hook H3)."""
 from common import *  # noqa
+import math
 import calgen
 import calrun
 import jsongen as J
@@ -297,6 +298,14 @@ def run_load(ctx, cases):
             key = ("from_json", J.KINDS[a[1]], "shape-invariant")
             what = ("from_json returns Ok(%s) with stored shapes %s that violate the type's invariant, for the document %s"
                     % (J.KINDS[a[1]], a[3:3 + a[2]], J.show(doc, 400)))
+        elif not agree and lab not in ("valid", "corpus"):
+            # a MUTATED document on which the real loader and the model decide differently although the real outcome itself
+            # satisfies the property (an error, or a value with its full shape): which malformed documents are accepted is
+            # not specified (e.g. serde's positional struct form follows the declaration order of the fields) - counted,
+            # not a violation.  Unmutated documents must agree (next branch).
+            ctx.count("mutated documents decided differently by code and model (real outcome satisfies the property): %s vs %s"
+                      % (fmt_load(a).split("(")[0], fmt_load(b).split("(")[0]))
+            continue
         elif not agree:
             key = ("from_json", ty, "model-mismatch")
             what = ("from_json: the implementation and the model disagree on the document %s (%s): implementation %s, model %s"
@@ -328,8 +337,18 @@ def run_ctors(ctx, cases):
     for (label, line, mc), a, b in zip(cases, impl, model):
         ctx.evaluations += 1
         same = a == b
-        if label == "PPSpline::csolve" and a[:2] == b[:2] and a[0] == 0:
-            same = all(fclose(b2f(x), b2f(y), rtol=1e-9, atol=1e-12) for x, y in zip(a[2:], b[2:]))
+        singular = False
+        if label == "PPSpline::csolve":
+            # C20 is about the OUTCOME of csolve (value / error / abort) and the shape of what it returns; the coefficient
+            # VALUES are C15's business.  The model tells whether the collocation matrix is singular: it then aborts or
+            # returns non-finite coefficients (a division by an exact zero); on such input the real code's garbage - or
+            # whether a NaN reaches the pivot search and aborts (finding F8) - depends on last-bit rounding and on the
+            # tie-breaking between equal pivots, so only "returns n coefficients, or aborts at the F8 site" is demanded.
+            singular = b == [2] or (b[:1] == [0] and any(not math.isfinite(b2f(x)) for x in b[2:]))
+            if a[:1] == [0] and b[:1] == [0]:
+                same = a[:2] == b[:2] and len(a) == len(b)
+            elif singular and a[:1] in ([0], [2]) and b[:1] in ([0], [2]):
+                same = True
         if a[0] == 1 or (a[0] == 0 and len(a) > 2):
             ctx.nontriv(("ctor", line))
         ent = label.split(" ")[0]
@@ -344,7 +363,8 @@ def run_ctors(ctx, cases):
             what = "%s ABORTS (Rust panic%s) instead of returning a value or an error: %s" % (
                 label, " at %s:%d: %s" % site if site else "", pretty_ctor(label, mc, line))
             rp["call"] = pretty_ctor(label, mc, line)
-            rp["model_outcome"] = "abort"
+            rp["model_outcome"] = "abort" if b == [2] else "returns"
+            rp["singular_by_model"] = bool(singular)
             if site:
                 rp["panic_file"], rp["panic_line"], rp["panic_msg"] = site
         else:
@@ -412,7 +432,8 @@ def run(ctx):
         "FXRates::try_new: at most 181 currencies (i16 edge counter)",
         "out of scope: stack exhaustion, allocation failure, panics inside pyo3, NaN inputs to csolve, JSON integers beyond 2^64, array dimensions beyond isize::MAX",
     ]
-    translate.generate(REPO, os.path.join(COQ, "theories", "Gen"))
+    if translate_stage(ctx) is None:
+        return ctx.finish(CMD)
     if not proof_stage(ctx, ["theories/Run/RunJson.vo", "theories/Run/RunCal.vo", "theories/Proofs/CsolveWitness.vo"]):
         ctx.violation("a C20 proof obligation or the model no longer compiles",
                       {"no_failing_input": True, "theorem": "Props/C20.v / Run/RunJson.v", "log_tail": getattr(ctx, "build_log", "")[-3000:]})
